@@ -75,6 +75,9 @@ func verifyFunction(P *Program, C *Contracts, fn *ssa.Function, opts *Options) (
 	res.Obls = ex.obls
 	res.Errors = append(res.Errors, ex.errors...)
 	res.HasCt = C.Funcs[res.Key] != nil
+	if ct := C.Funcs[res.Key]; ct != nil && ct.HasCallers {
+		res.Obls = append(res.Obls, callersObligation(P, fn, ct))
+	}
 	for n := range ex.notes {
 		res.Notes = append(res.Notes, n)
 	}
@@ -260,6 +263,10 @@ func (ex *Exec) assumeTypeInv(fr *Frame, st *State, v Val) {
 }
 
 func (ex *Exec) checkTypeInv(fr *Frame, st *State, v Val, what string, pos token.Pos) {
+	ex.checkTypeInvUnder(fr, st, v, what, pos, "true")
+}
+
+func (ex *Exec) checkTypeInvUnder(fr *Frame, st *State, v Val, what string, pos token.Pos, under string) {
 	T := v.T
 	ref := ""
 	nonnil := ""
@@ -294,7 +301,7 @@ func (ex *Exec) checkTypeInv(fr *Frame, st *State, v Val, what string, pos token
 			ex.errors = append(ex.errors, fmt.Sprintf("%s: type invariant %s: %v", c.Line, c.Label, err))
 			continue
 		}
-		o := ex.oblige(fr, st, "typeinv", tc.Key+"."+c.Label+what, implies(nonnil, t), pos, "type invariant "+c.Label+" of "+tc.Key+": "+c.Src)
+		o := ex.oblige(fr, st, "typeinv", tc.Key+"."+c.Label+what, implies(and(under, nonnil), t), pos, "type invariant "+c.Label+" of "+tc.Key+": "+c.Src)
 		if o != nil {
 			o.Props = c.Props
 			o.HasQuant = en.quant
@@ -384,19 +391,30 @@ func (ex *Exec) finishRoot(fr *Frame, pre *State) {
 		for k, rv := range results {
 			chk(rv, fmt.Sprintf("@result%d", k))
 		}
-		for i, sr := range ex.storedRefs {
+		for _, sr := range ex.storedRefs {
 			if ex.C.Types[typeContractKey(sr.T)] == nil {
 				continue
 			}
-			_ = i
-			chk(Val{T: types.NewPointer(sr.T), L: []string{sr.Ref}}, "@written")
+			k := sr.Ref + typeKey(sr.T) + sr.PC
+			if seen[k] || seen[sr.Ref+typeKey(types.NewPointer(sr.T))] {
+				continue
+			}
+			seen[k] = true
+			ex.checkTypeInvUnder(fr, st, Val{T: types.NewPointer(sr.T), L: []string{sr.Ref}}, "@written", fn.Pos(), sr.PC)
 		}
 	}
 }
 
 // applyGhostUpdate performs "update when cond: lhs = rhs".
 func (ex *Exec) applyGhostUpdate(fr *Frame, st, pre *State, vars map[string]Val, gu GhostUpdate) {
+	ex.applyGhostUpdatePkg(fr, st, pre, vars, gu, nil)
+}
+
+func (ex *Exec) applyGhostUpdatePkg(fr *Frame, st, pre *State, vars map[string]Val, gu GhostUpdate, pkg *types.Package) {
 	en := ex.newEnv(fr, st, pre, vars)
+	if pkg != nil {
+		en.pkg = pkg
+	}
 	cond, err := en.evalBool(gu.Cond)
 	if err != nil {
 		ex.errors = append(ex.errors, "ghost update: "+err.Error())
@@ -441,8 +459,10 @@ func (ex *Exec) applyGhostUpdate(fr *Frame, st, pre *State, vars map[string]Val,
 		ex.errors = append(ex.errors, "ghost update: "+sel_.Name+" is not a ghost field")
 		return
 	}
+	savedPkg := en.pkg
 	en.pkg = pkgOfType(T)
 	GT := en.resolveType(gf.Type)
+	en.pkg = savedPkg
 	key := fieldKey(T, gf.Name, "")
 	ref := obj.L[0]
 	if mt, ok := GT.(*types.Map); ok {
@@ -814,6 +834,7 @@ func (ex *Exec) applyContract(fr *Frame, st *State, fn *ssa.Function, ct *FuncCo
 		for _, m := range ct.Modifies {
 			locs = append(locs, ex.modLocs(en, m)...)
 		}
+		var ulocs []modLoc
 		for _, gu := range ct.Updates {
 			var s *ESel
 			switch l := gu.LHS.(type) {
@@ -823,10 +844,11 @@ func (ex *Exec) applyContract(fr *Frame, st *State, fn *ssa.Function, ct *FuncCo
 				s, _ = l.X.(*ESel)
 			}
 			if s != nil {
-				locs = append(locs, ex.modLocs(en, s)...)
+				ulocs = append(ulocs, ex.modLocs(en, s)...)
 			}
 		}
-		ex.callAssigns(st, locs)
+		// ghost fields named only by update clauses are changed exactly by those updates (not forgotten)
+		ex.callAssigns(st, append(append([]modLoc{}, locs...), ulocs...))
 		ex.havocLocs(st, locs)
 		for _, h := range ct.Havoc {
 			var ks []string
@@ -862,11 +884,21 @@ func (ex *Exec) applyContract(fr *Frame, st *State, fn *ssa.Function, ct *FuncCo
 		if nm := fn.Signature.Results().At(k).Name(); nm != "" && nm != "_" {
 			vars[nm] = rv
 		}
-		if !ct.NoInv {
-			ex.assumeTypeInv(fr, st, rv)
-		}
 	}
+	// the callee's ghost updates happen at its exit: replay them on the caller's state
+	if len(ct.Updates) > 0 {
+		savedActive := ex.modActive
+		ex.modActive = false
+		for _, gu := range ct.Updates {
+			ex.applyGhostUpdatePkg(nil, st, pre, vars, gu, fn.Pkg.Pkg)
+		}
+		ex.modActive = savedActive
+	}
+	// the callee re-established the type invariants of its arguments and results (in the final state)
 	if !ct.NoInv {
+		for k := 0; k < nres; k++ {
+			ex.assumeTypeInv(fr, st, vars[fmt.Sprintf("result%d", k)])
+		}
 		for i, p := range fn.Params {
 			if i < len(args) {
 				v := args[i]
@@ -1353,6 +1385,9 @@ func solveAll(exs map[string]*Exec, results []*FuncResult, cfg *solveCfg) {
 }
 
 func solveOne(ex *Exec, o *Obligation, cfg *solveCfg) {
+	if o.Static {
+		return
+	}
 	base := cfg.outDir + "/" + safeName(o.Name)
 	z3text, _ := ex.queryText(o, false)
 	z3file := base + ".smt2"
@@ -1493,4 +1528,63 @@ func (en *Env) denotesObject(e Expr) bool {
 	}
 	_, isSel := e.(*ESel)
 	return isSel
+}
+
+
+// callersObligation: structural call-graph condition "only these functions call fn" over non-test module code.
+func callersObligation(P *Program, fn *ssa.Function, ct *FuncContract) *Obligation {
+	o := &Obligation{Name: funcKey(fn) + "/callers", Kind: "callers", Func: funcKey(fn), Pos: P.pos(fn.Pos()), Static: true,
+		Detail: "only " + strings.Join(ct.Callers, ", ") + " may call " + funcKey(fn) + " (static call graph of non-test module code)", Solver: "call-graph"}
+	var bad []string
+	for f := range P.allFns {
+		if !isModFn(f) || len(f.Blocks) == 0 || P.isTestFile(f.Pos()) {
+			continue
+		}
+		root := f
+		for root.Parent() != nil {
+			root = root.Parent()
+		}
+		if strings.HasSuffix(P.Fset.Position(root.Pos()).Filename, "_test.go") {
+			continue
+		}
+		for _, b := range f.Blocks {
+			for _, in := range b.Instrs {
+				ci, ok := in.(ssa.CallInstruction)
+				if !ok {
+					continue
+				}
+				if ci.Common().StaticCallee() != fn {
+					// method values / closures referring to fn
+					continue
+				}
+				if !containsStr(ct.Callers, funcKey(root)) {
+					bad = append(bad, funcKey(f)+" at "+P.pos(in.Pos()))
+				}
+			}
+		}
+		// taking the function as a value also counts
+		for _, b := range f.Blocks {
+			for _, in := range b.Instrs {
+				for _, op := range in.Operands(nil) {
+					if *op == ssa.Value(fn) {
+						if ci, ok := in.(ssa.CallInstruction); ok && ci.Common().Value == ssa.Value(fn) {
+							continue
+						}
+						if !containsStr(ct.Callers, funcKey(root)) {
+							bad = append(bad, funcKey(f)+" (function value) at "+P.pos(in.Pos()))
+						}
+					}
+				}
+			}
+		}
+	}
+	sort.Strings(bad)
+	if len(bad) == 0 {
+		o.Status = "proved"
+	} else {
+		o.Status = "unknown"
+		o.Raw = "unexpected callers: " + strings.Join(bad, "; ")
+		o.Detail += " -- unexpected: " + strings.Join(bad, "; ")
+	}
+	return o
 }
